@@ -237,7 +237,13 @@ Loop:
 			}
 		}
 
-		if r.Type == codec.RspNeedNtAuth || r.Type == codec.RspNeedAuth || r.Type == codec.RspAuthFailed {
+		// An authentication failure is fatal where it answers the proxy's own commands: the AUTH of the
+		// handshake (the connection is still initializing) or the topology probe (a fragment without an
+		// owner). As the answer to a client's request it is that client's error and is handed on like
+		// any other: a script can make a node say it (redis.error_reply), and one client must not be
+		// able to stop the proxy for everybody else.
+		if (r.Type == codec.RspNeedNtAuth || r.Type == codec.RspNeedAuth || r.Type == codec.RspAuthFailed) &&
+			(r.Owner == nil || s.initStatus == Initializing) {
 			logging.Errorf("[%dm|%df][%dc|%ds] rcproxy shutdown because of invalid auth, redis response: %s", r.MsgId(), r.Id, r.OwnerFd(), s.fd, r.RspBodyString())
 			return gerrors.ErrEngineShutdown
 		}
